@@ -9,7 +9,9 @@ SPEC = {
                  sources=["harness/c12_sampling.cc", build.REPO + "/sdk/src/trace/samplers/trace_id_ratio.cc"],
                  cxxflags=["-fsanitize=float-cast-overflow"]),
              memcheck("c12_sampling_plain", 200, 10000,
-                      sources=["harness/c12_sampling.cc", build.REPO + "/sdk/src/trace/samplers/trace_id_ratio.cc"])],
+                      sources=["harness/c12_sampling.cc", build.REPO + "/sdk/src/trace/samplers/trace_id_ratio.cc"]),
+             # one sampler object shared by 2..8 threads (TSan + shim), judged against thread-private twins
+             run("shared-sampler-threads", "c12_threads", "tsan", 300, 20000, sq=4, st=16, fallback_flavour="tsan-plain")],
     "floors": {
         "quick": {"pairs_within_4ulp": 1000, "ids_near_threshold": 10000, "id_splits_a_ratio_pair": 10000,
                   "id_splits_a_pair_within_4ulp": 100, "checks_ratio_le0": 10000, "checks_ratio_ge1": 10000,
@@ -17,7 +19,8 @@ SPEC = {
                   "parent_valid_local": 3000, "parent_invalid": 3000, "parent_flag_byte_sweeps": 30,
                   "tracer_root_sampled": 1000, "tracer_root_dropped": 1000, "tracer_child_spans": 300,
                   "tracer_root_ids_as_supplied": 3000, "tracer_delegate_root_record-only": 300,
-                  "tracer_delegate_child_spans": 1000, "tracer_nonparentbased_children_of_unsampled": 500},
+                  "tracer_delegate_child_spans": 1000, "tracer_nonparentbased_children_of_unsampled": 500,
+                  "shared_sampler_decisions": 100000, "shared_sampler_cases_ge4_threads": 50},
         "thorough": {"pairs_within_4ulp": 60000, "ids_near_threshold": 400000, "id_splits_a_ratio_pair": 400000,
                      "id_splits_a_pair_within_4ulp": 4000, "checks_ratio_le0": 400000, "checks_ratio_ge1": 400000,
                      "parent_valid_sampled": 100000, "parent_valid_unsampled": 100000, "parent_invalid": 100000,
